@@ -268,6 +268,212 @@ def methods_rev(src):
     return _unparse(tree)
 
 
+_ABRUPT = (ast.Return, ast.Raise, ast.Continue, ast.Break)
+
+
+class _ElseDrop(ast.NodeTransformer):
+    """``if c: A (leaves) else: B``  ->  ``if c: A`` ; ``B``   (guard clause form)"""
+    def _block(self, stmts):
+        out = []
+        for st in stmts:
+            if isinstance(st, ast.If) and st.orelse and st.body and isinstance(st.body[-1], _ABRUPT) and \
+                    not (len(st.orelse) == 1 and isinstance(st.orelse[0], ast.If)):
+                rest = st.orelse
+                st.orelse = []
+                out.append(st)
+                out.extend(rest)
+            else:
+                out.append(st)
+        return out
+
+    def generic_visit(self, node):
+        super().generic_visit(node)
+        for field in ('body', 'orelse', 'finalbody'):
+            v = getattr(node, field, None)
+            if isinstance(v, list) and v and isinstance(v[0], ast.stmt):
+                setattr(node, field, self._block(v))
+        return node
+
+
+def else_drop(src):
+    return _unparse(_ElseDrop().visit(ast.parse(src)))
+
+
+class _ElseAdd(ast.NodeTransformer):
+    """``if c: A (leaves)`` ; ``rest``  ->  ``if c: A else: rest``  (only the last such guard of a block, and never when the
+    rest binds names that are used after the block - it is the whole remainder of the block, so nothing follows it)"""
+    def _block(self, stmts):
+        for i in range(len(stmts) - 2, -1, -1):
+            st = stmts[i]
+            if isinstance(st, ast.If) and not st.orelse and st.body and isinstance(st.body[-1], _ABRUPT) and stmts[i + 1:]:
+                st.orelse = stmts[i + 1:]
+                return stmts[:i + 1]
+        return stmts
+
+    def generic_visit(self, node):
+        super().generic_visit(node)
+        if isinstance(node, (ast.FunctionDef, ast.AsyncFunctionDef, ast.For, ast.While)):
+            v = node.body
+            if isinstance(v, list) and v and isinstance(v[0], ast.stmt):
+                node.body = self._block(v)
+        return node
+
+
+def else_add(src):
+    return _unparse(_ElseAdd().visit(ast.parse(src)))
+
+
+class _DeMorgan(ast.NodeTransformer):
+    """in ``if`` / ``while`` tests:  a and b -> not (not a or not b);  a or b -> not (not a and not b)"""
+    def _rw(self, t):
+        if isinstance(t, ast.BoolOp) and not any(isinstance(x, ast.NamedExpr) for x in ast.walk(t)):
+            other = ast.Or() if isinstance(t.op, ast.And) else ast.And()
+            return ast.UnaryOp(op=ast.Not(), operand=ast.BoolOp(op=other, values=[ast.UnaryOp(op=ast.Not(), operand=v) for v in t.values]))
+        return t
+
+    def visit_If(self, node):
+        self.generic_visit(node)
+        node.test = self._rw(node.test)
+        return node
+
+    def visit_While(self, node):
+        self.generic_visit(node)
+        node.test = self._rw(node.test)
+        return node
+
+
+def demorgan(src):
+    return _unparse(_DeMorgan().visit(ast.parse(src)))
+
+
+class _Yoda(ast.NodeTransformer):
+    """``x is None`` -> ``None is x``;  ``x == K`` -> ``K == x`` for constants and CapitalisedName.MEMBER operands (no
+    user-defined reflected comparison is involved for these)"""
+    @staticmethod
+    def _k(e):
+        if isinstance(e, ast.Constant):
+            return True
+        if isinstance(e, ast.Attribute):
+            b = e
+            while isinstance(b, ast.Attribute):
+                b = b.value
+            return isinstance(b, ast.Name) and b.id[:1].isupper() and e.attr.isupper()
+        return False
+
+    def visit_Compare(self, node):
+        self.generic_visit(node)
+        if len(node.ops) == 1 and isinstance(node.ops[0], (ast.Is, ast.IsNot, ast.Eq, ast.NotEq)) and \
+                self._k(node.comparators[0]) and not self._k(node.left) and \
+                (isinstance(node.ops[0], (ast.Is, ast.IsNot)) or isinstance(node.comparators[0], ast.Constant) and
+                 isinstance(node.comparators[0].value, (str, int, bool, type(None)))):
+            return ast.Compare(left=node.comparators[0], ops=node.ops, comparators=[node.left])
+        return node
+
+
+def yoda(src):
+    return _unparse(_Yoda().visit(ast.parse(src)))
+
+
+class _IfExpSplit(ast.NodeTransformer):
+    """``x = a if c else b``  ->  ``if c: x = a else: x = b``  (single plain-name or attribute target)"""
+    def _block(self, stmts):
+        out = []
+        for st in stmts:
+            if isinstance(st, ast.Assign) and len(st.targets) == 1 and isinstance(st.value, ast.IfExp) and \
+                    isinstance(st.targets[0], ast.Name) and \
+                    not any(isinstance(x, (ast.NamedExpr, ast.Yield, ast.YieldFrom, ast.Await)) for x in ast.walk(st.value)):
+                t = st.targets[0]
+                out.append(ast.If(test=st.value.test,
+                                  body=[ast.Assign(targets=[ast.Name(id=t.id, ctx=ast.Store())], value=st.value.body, lineno=st.lineno)],
+                                  orelse=[ast.Assign(targets=[ast.Name(id=t.id, ctx=ast.Store())], value=st.value.orelse, lineno=st.lineno)]))
+            elif isinstance(st, ast.Return) and isinstance(st.value, ast.IfExp) and \
+                    not any(isinstance(x, (ast.NamedExpr, ast.Yield, ast.YieldFrom, ast.Await)) for x in ast.walk(st.value)):
+                out.append(ast.If(test=st.value.test, body=[ast.Return(value=st.value.body)], orelse=[ast.Return(value=st.value.orelse)]))
+            else:
+                out.append(st)
+        return out
+
+    def generic_visit(self, node):
+        super().generic_visit(node)
+        if isinstance(node, (ast.ClassDef, ast.Module)):
+            return node
+        for field in ('body', 'orelse', 'finalbody'):
+            v = getattr(node, field, None)
+            if isinstance(v, list) and v and isinstance(v[0], ast.stmt):
+                setattr(node, field, self._block(v))
+        return node
+
+    def visit_Lambda(self, node):
+        return node
+
+
+def ifexp_split(src):
+    return _unparse(_IfExpSplit().visit(ast.parse(src)))
+
+
+class _SubstName(ast.NodeTransformer):
+    def __init__(self, mapping):
+        self.mapping = mapping
+
+    def visit_Name(self, node):
+        if node.id in self.mapping:
+            return ast.Name(id=self.mapping[node.id], ctx=node.ctx)
+        return node
+
+
+class _Loopify(ast.NodeTransformer):
+    """``x = [E for v in S if c]``  ->  ``x = []`` ; ``for v_ in S: if c: x.append(E)``  (one generator, plain-name target, the
+    comprehension variable renamed so that it cannot clobber a local of the function; S must not mention x)"""
+    def __init__(self):
+        self.n = 0
+
+    def _block(self, stmts):
+        out = []
+        for st in stmts:
+            v = getattr(st, 'value', None)
+            if isinstance(st, ast.Assign) and len(st.targets) == 1 and isinstance(st.targets[0], ast.Name) and \
+                    isinstance(v, ast.ListComp) and len(v.generators) == 1 and not v.generators[0].is_async and \
+                    not any(isinstance(x, (ast.NamedExpr, ast.Yield, ast.YieldFrom, ast.Await, ast.Lambda, ast.ListComp, ast.SetComp,
+                                           ast.DictComp, ast.GeneratorExp)) for x in ast.walk(v) if x is not v) and \
+                    not any(isinstance(x, ast.Name) and x.id == st.targets[0].id for x in ast.walk(v)):
+                g = v.generators[0]
+                self.n += 1
+                tn = [x.id for x in ast.walk(g.target) if isinstance(x, ast.Name)]
+                mp = {t_: f'_mm_c{self.n}_{t_}' for t_ in tn}
+                sub = _SubstName(mp)
+                tgt = sub.visit(g.target)
+                elt = sub.visit(v.elt)
+                conds = [sub.visit(c) for c in g.ifs]
+                x = st.targets[0].id
+                app = ast.Expr(value=ast.Call(func=ast.Attribute(value=ast.Name(id=x, ctx=ast.Load()), attr='append', ctx=ast.Load()),
+                                              args=[elt], keywords=[]))
+                inner = [app]
+                for c in reversed(conds):
+                    inner = [ast.If(test=c, body=inner, orelse=[])]
+                out.append(ast.Assign(targets=[ast.Name(id=x, ctx=ast.Store())], value=ast.List(elts=[], ctx=ast.Load()), lineno=st.lineno))
+                out.append(ast.For(target=tgt, iter=g.iter, body=inner, orelse=[], lineno=st.lineno))
+            else:
+                out.append(st)
+        return out
+
+    def generic_visit(self, node):
+        super().generic_visit(node)
+        if isinstance(node, (ast.ClassDef, ast.Module)):
+            return node
+        for field in ('body', 'orelse', 'finalbody'):
+            v = getattr(node, field, None)
+            if isinstance(v, list) and v and isinstance(v[0], ast.stmt):
+                setattr(node, field, self._block(v))
+        return node
+
+    def visit_Lambda(self, node):
+        return node
+
+
+def loopify_comps(src):
+    return _unparse(_Loopify().visit(ast.parse(src)))
+
+
 def unparse_only(src):
     return _unparse(ast.parse(src))
 
@@ -275,6 +481,14 @@ def unparse_only(src):
 def combo(src):
     """All structural rewrites at once (everything except the renaming)."""
     for tf in (invert_if, split_and, test_temp, return_temp, methods_rev):
+        src = tf(src)
+    return src
+
+
+def combo2(src):
+    """The second family of structural rewrites at once (guard clauses folded into else branches, De Morgan, constants on the
+    left, conditional expressions split, comprehensions unrolled into loops)."""
+    for tf in (loopify_comps, ifexp_split, else_add, demorgan, yoda):
         src = tf(src)
     return src
 
@@ -293,6 +507,13 @@ TRANSFORMS = {
     'methods-rev': methods_rev,
     'combo': combo,
     'combo-renamed': combo_renamed,
+    'else-drop': else_drop,
+    'else-add': else_add,
+    'demorgan': demorgan,
+    'yoda': yoda,
+    'ifexp-split': ifexp_split,
+    'loopify': loopify_comps,
+    'combo2': combo2,
 }
 
 
